@@ -343,7 +343,8 @@ def _event(eng, st, args, kwargs):
                  IntV(eng.as_int(n, st)), V(eng.D.KEvent.items[4], coerce(dt, _KRef('dtype')).term if dt.kind != eng.D.KEvent.items[4] else dt.term)])
 
 
-for _n, _s in [('triu', 'MM'), ('filltriu', 'LMM'), ('bcast', 'IIIM'), ('tri_numel', 'III')]:
+for _n, _s in [('bcast', 'IIIM'), ('tri_numel', 'III'), ('gather2', 'MMMM'), ('put2', 'MMMMM'), ('row', 'MIM'),
+               ('triuidx', 'IIIM'), ('uninit', 'IM'), ('elem', 'MIIR'), ('velem', 'MIR')]:
     _mat_op(_n, _s)
 
 
